@@ -86,9 +86,18 @@ def decodeBody (sid flags : Nat) (b : List Nat) : Option (Option Sub) :=
               | none => none
   | 0x0e => if b.length = 12 then some (some (.infoDst b)) else none
   | 0x0c => if b.length = 20 then some (some (.infoSrc (b.drop 8))) else none
-  | 0x0f => match u32 b with
-    | some (n, r) => if r.length = 24 * n ∧ !fl 1 then some (some .infoReply) else none
-    | none => none
+  | 0x0f =>
+    -- InfoReplySubmessage::try_from_bytes: numLocators (from the wire) locators of 24 octets, a second list with the
+    -- MulticastFlag; the reader only sees the submessage's own octets (D-wire-3): when they run out the submessage is
+    -- dropped and decoding goes on with the next one; octets left over are ignored
+    match u32 b with
+    | some (n, r) =>
+      if r.length < 24 * n then some none
+      else if !fl 1 then some (some .infoReply)
+      else match u32 (r.drop (24 * n)) with
+        | some (m, r2) => if r2.length < 24 * m then some none else some (some .infoReply)
+        | none => some none
+    | none => some none
   | 0x07 => match eid b with
     | some (rd, r1) => match eid r1 with
       | some (wr, r2) => match sn64 r2 with
@@ -289,7 +298,9 @@ def step (s : St) (line : String) : St × String :=
       if !s.hold && a == toString (s.nb + 1) && b == a then
         ({ s with nb := s.nb + 1, v := victim0 s.na (s.nb + 1) }, "ok") else (s, "bad-op")
     | ["hold", "from=P2"] => if s.hold then (s, "bad-op") else ({ s with hold := true }, "ok")
-    | ["inject", "P1", "P2", port, h] =>
+    | [op, "P1", "P2", port, h] =>
+      -- `x-w2d-inject` = `inject` with the allocation observation of the dsim extension (same answers on a healthy tree)
+      if op != "inject" && op != "x-w2d-inject" then (s, "bad-op") else
       if port != "user" && port != "meta" then (s, "bad-op")
       else match (unhex h.toList).bind (decodeDatagram s.guards) with
         | none => (s, "bad-op")
